@@ -183,7 +183,7 @@ func extractRecv(
 func extractAnonChainRecv(env *object.Env) (object.PanObject, *object.PanErr) {
 	// recv is 1st arg in current env
 	// NOTE: refer only args of the current call (not of the enclosing func)
-	self, ok := env.Store[object.GetSymHash(`\1`)]
+	self, ok := env.GetInScope(object.GetSymHash(`\1`))
 	if !ok {
 		return nil, object.NewNameErr("name `\\1` is not defined")
 	}
